@@ -3,11 +3,15 @@
 1. TLC model-checks spec/MC_Laws (LAWS_MODE=C13): behaviours of Split (Cuboid at lattice planes), SplitSeg
    (CylinderSegment in r / phi / z), Convert (Cuboid -> 12-face TriangularMesh / from_ConvexHull / 5 or 6 Tetrahedra /
    12 Triangle sheets; TriangularMesh -> to_TriangleCollection / from_triangles / from_mesh; Cylinder -> full
-   CylinderSegment; Sphere -> Dipole; Circle -> inscribed N-gon) and Merge.  In every state the exact premise holds:
+   CylinderSegment; Sphere -> Dipole; Circle -> inscribed N-gon), Merge, and representations WITH A HISTORY: Convert
+   "MeshLate" (the mesh is built un-normalised with inverted faces, the live object is used / inspected / checked, normalised
+   by reorient_faces() and only then compared with the Cuboid) and Op (use / check / reorient the live object of a mesh).  In every state the exact premise holds:
    parts have the polarization and pose of the whole, pairwise disjoint interiors, exactly its volume (integer
    determinants, separating-axis test, chart boxes), observers strictly off all surfaces and cut planes; the total
    volume is conserved along the behaviour and an interior point is inside exactly one part.
-2. Every transition is instantiated under a random concretization kappa; per-source getB/getH are logged as two-limb
+   Two base configurations carry observers exactly ON the straight extensions of all 12 edges and on extensions of face planes
+   of the cuboid (outside the body, on no cut): these are instantiated on the lattice itself (no global rotation, unit 2^e m).
+2. Every transition is instantiated under a random concretization kappa (every other one on the exact lattice); per-source getB/getH are logged as two-limb
    fixed-point numbers (1e-12 of the gross scale per observer and field).
 3. spec/TV_Laws re-checks the premise and judges Sum(before) = Sum(after) for the fields the law claims (H only for
    Triangle sheets), and the 1/N^2 rate law for the polygon.
